@@ -72,7 +72,7 @@ def strconfig_part(ctx):
     from mbt import batch, tlc
     from sim import gwrun
 
-    depth = "3" if ctx.quick else "4"
+    depth = "4"
     r = tlc.run("StrConfigCases", "Batch.cfg", scratch=ctx.scratch, env={"WHAT": "enum", "DEPTH": depth}, workers=1, timeout=1800)
     vals = tlc.printed_values(r.out, "words")
     if not vals or not vals[0]:
@@ -80,6 +80,11 @@ def strconfig_part(ctx):
     words = sorted(vals[0], key=lambda w: (len(w), repr(w)))
     prefixes = {w[:i] for w in words for i in range(len(w))}
     maximal = [w for w in words if w not in prefixes]
+    if ctx.quick:  # every sequence of <= 3 operations, a seeded sample of those with 4
+        short = [w for w in words if len(w) <= 3]
+        sp = {w[:i] for w in short for i in range(len(w))}
+        long4 = [w for w in maximal if len(w) == 4]
+        maximal = [w for w in short if w not in sp] + random.Random(ctx.seed + 121).sample(long4, min(3000, len(long4)))
     res = gwrun.run_chanlife([[list(o) for o in w] for w in maximal], module="sim.strconfig")
     gwrun.close_pool()
     for x in res:
